@@ -77,7 +77,15 @@ def run_case(p, case, rng, rnd, dense_too=True, built=None):
     cj, key, qc, st = built["cj"], built["key"], built["qc"], (built["stab"],)
     K = 4 ** n
     counts = built["counts"]
-    ok, ev = call(lambda: StabilizerMeasurementFitter(tomo.FakeResult(counts), qc).expectation_values())
+    if p.evals % 3 == 0:
+        # a Result holding several experiments: the fitter must read the entry named by result_index
+        decoy = {k: v[::-1].copy() for k, v in counts.items()}
+        idx = p.evals % 4
+        lst = [decoy] * idx + [counts] + [decoy] * (3 - idx)
+        p.counters["fits through result_index"] += 1
+        ok, ev = call(lambda: StabilizerMeasurementFitter(tomo.FakeResult(lst), qc, result_index=idx).expectation_values())
+    else:
+        ok, ev = call(lambda: StabilizerMeasurementFitter(tomo.FakeResult(counts), qc).expectation_values())
     if not ok:
         p.violate(key + "fitter-raises", "expectation_values raised %s: %s" % (exc_name(ev), str(ev)[:160]), cj)
         return
